@@ -571,23 +571,19 @@ def _check_module(mod):
 
 
 def _gm_helper(funcs):
-    """_weighted_geometric_mean must be exp(sum(w * log x) / sum(w)) along `axis`.
-
-    Two bodies are understood.  The second multiplies the (fh,) weights into the (fh, n_outputs)
-    log-errors with numpy's trailing-axis broadcasting, i.e. along the OUTPUT axis instead of the
-    horizon axis (finding F-C06-6); the translator reads both as the weighted geometric mean of
-    the model and records which one it saw in gen_weighted_gmean_along_horizon."""
+    """_weighted_geometric_mean must be exp(np.average(log x, weights=w, axis=axis)): np.average
+    applies 1-D weights along `axis` (its documented meaning, which is what the model's weighted
+    geometric mean is).  Anything else - in particular the 0.6.0 body
+    exp(sum(w * log x, axis) / sum(w, axis)), whose `w * log x` broadcasts the (fh,) weights along
+    the OUTPUT axis of the (fh, n_outputs) errors - is refused: numpy broadcasting is not
+    modelled."""
     fn = funcs["_weighted_geometric_mean"]
     names, _ = _params(fn)
     _need(names == ["x", "sample_weight", "axis"], "_weighted_geometric_mean signature", fn)
     body = [_u(s) for s in _strip_doc(fn)]
-    _need(len(body) == 2 and body[0] == "check_consistent_length(x, sample_weight)",
-          "_weighted_geometric_mean body", fn)
-    if body[1] == "return np.exp(np.average(np.log(x), weights=sample_weight, axis=axis))":
-        return "true"
-    _need(body[1] == "return np.exp(np.sum(sample_weight * np.log(x), axis=axis) / "
-          "np.sum(sample_weight, axis=axis))", "_weighted_geometric_mean body", fn)
-    return "false"
+    _need(len(body) == 2 and body[0] == "check_consistent_length(x, sample_weight)"
+          and body[1] == "return np.exp(np.average(np.log(x), weights=sample_weight, axis=axis))",
+          "_weighted_geometric_mean body (expected exp of np.average of logs along `axis`)", fn)
 
 
 def translate(repo):
@@ -600,7 +596,7 @@ def translate(repo):
                                             "_asymmetric_error", "_weighted_geometric_mean"]
                if f not in funcs]
     _need(not missing, "functions missing from _functions.py: %s" % missing)
-    wgm = _gm_helper(funcs)
+    _gm_helper(funcs)
     helpers = gen_helpers(funcs)
     done = {}
     # simple functions first: the scaled ones refer to them
@@ -625,8 +621,6 @@ def translate(repo):
     text += rows + ["  end.", ""]
     text += ["Definition gen_defaults (n : mname) : opts :=", "  match n with"]
     text += _default_opts(funcs) + ["  end.", ""]
-    text += ["(* does _weighted_geometric_mean apply the horizon weights along the horizon axis? *)",
-             "Definition gen_weighted_gmean_along_horizon : bool := %s." % wgm, ""]
     return {"C06/Gen.v": "\n".join(text)}
 
 
